@@ -251,6 +251,7 @@ def _run_side(binary, lines, timeout):
 
 
 CASE_TIMEOUT = int(os.environ.get('BEDV_CASE_TIMEOUT', '240'))
+HANG_SEEN = []          # non-empty once a case was confirmed to hang in this run
 FAST_ABORT = os.environ.get('BEDV_FAST_ABORT') == '1'      # bin/mutants: after a hang the rest of the shard is not re-run
 
 
@@ -278,11 +279,17 @@ def run_side(binary, cases, timeout=None, shards=NPROC):
             if st == 'timeout' and not FAST_ABORT:
                 # a slow (loaded) machine is not a hang: the case the shard stopped at is run once more ALONE with the
                 # full time limit; only if it does not finish then either is it reported as hanging
-                o1, st1 = _run_side(binary, [cases[todo[n]]], timeout)
+                o1, st1 = _run_side(binary, [cases[todo[n]]], min(timeout, 120))
                 if st1 == 0 and len(o1) == 1:
                     results[todo[n]] = o1[0]
                     todo = todo[n + 1:]
                     continue
+                # a confirmed hang is a definite answer: the rest of this shard is not run (it would hang again and
+                # again, turning a check of minutes into one of an hour), and nothing is shrunk afterwards
+                HANG_SEEN.append(1)
+                for i in todo[n:]:
+                    results[i] = '(abort timeout)'
+                return
             results[todo[n]] = '(abort %s)' % st
             todo = todo[n + 1:]
             if st == 'timeout':
@@ -538,13 +545,14 @@ def _main(prop, pid, tier, seed, replay, rundir, t0):
         attempts += 1
         hb = HARNESS_REL if i in rel_mism else HARNESS
         def still(t):
-            a = run_side(hb, [t], shards=1)[0]
-            b = run_side(RUNNER, [t], shards=1)[0]
+            a = run_side(hb, [t], timeout=60, shards=1)[0]
+            b = run_side(RUNNER, [t], timeout=60, shards=1)[0]
             if 'glue-error' in a or 'glue-error' in b:
                 return False
             return judge(prop, [t], [a], [b])[0]
         small = c.text
-        if not replay and os.environ.get('BEDV_NO_SHRINK') != '1':
+        hang = impl[i].startswith('(abort timeout')          # a hanging case is reported as it is: every shrinking step would hang again
+        if not replay and os.environ.get('BEDV_NO_SHRINK') != '1' and not hang and not HANG_SEEN:
             try:
                 small = shrink(c.text, still)
             except Exception as e:
@@ -552,8 +560,11 @@ def _main(prop, pid, tier, seed, replay, rundir, t0):
         if small in seen:
             continue
         seen.add(small)
-        si = run_side(hb, [small], shards=1)[0]
-        sm = run_side(RUNNER, [small], shards=1)[0]
+        if small == c.text:
+            si, sm = impl[i], model[i]
+        else:
+            si = run_side(hb, [small], shards=1)[0]
+            sm = run_side(RUNNER, [small], shards=1)[0]
         fclass = prop.classify(small, si, sm) if hasattr(prop, 'classify') else ''
         hit = [txt for (cre, txt) in kf if re.fullmatch(cre, fclass or '')]
         if hit:
